@@ -119,6 +119,11 @@ func (db *DB) Merge() error {
 				if err != nil {
 					return err
 				}
+				// 重写文件的 id 必须小于未参与 merge 的文件 id, 否则加载时无法移动到数据目录 (会被静默丢弃).
+				// 例如以更小的 DataFileSize 重新打开数据库后执行 merge, 重写后的文件数量会多于原文件数量
+				if pos.Fid >= nonMergeFileId {
+					return ErrMergeFileIDConflict
+				}
 				// merge的过程中顺便将构建索引所需信息写入 Hint 文件中, 用于后续重启时加速构建索引
 				if err := hintFile.WriteHintRecord(logRecord.Key, db.hintPos, pos); err != nil {
 					return err
